@@ -68,6 +68,24 @@ def call_prim(I, node, name, args, kwargs, st):
         else:
             yield st, SInt(z3.StrToInt(s.expr))
         return
+    if name == 'seq_filter_map':
+        yield from seq_filter_map(I, node, args, st)
+        return
+    if name == 'int_or_none':
+        s, = args
+        from .builtins import py_int_of_str
+        for st0, s0 in I.force(st, s):
+            if isinstance(s0, SNone):
+                yield st0, NONE
+                continue
+            if not isinstance(s0, SStr):
+                raise EngineLimit('int_or_none of %r' % (s0,))
+            for st1, r in py_int_of_str(I, node, s0, st0):
+                if isinstance(r, Raise):
+                    yield st1, NONE
+                else:
+                    yield st1, r
+        return
     if name == 'implies':
         a, b = args
         ta, tb = I.truth(st, a), I.truth(st, b)
@@ -81,3 +99,101 @@ def call_prim(I, node, name, args, kwargs, st):
         yield st, SBool(ta == tb)
         return
     raise EngineLimit('primitive %s' % name)
+
+
+_fm_ufs = {}
+
+
+def _single(I, f, args, st, node):
+    """call a pure spec function; must be single-valued after merging"""
+    outs = list(I.call_function(f, args, {}, st.fork(), node))
+    if len(outs) != 1 or isinstance(outs[0][1], Raise):
+        raise EngineLimit('seq_filter_map: %s must be a total, mergeable spec function' % f.name)
+    return outs[0][1]
+
+
+def seq_filter_map(I, node, args, st):
+    """[proj(x) for x in lst if pred(x)] over a symbolic sequence: distributed over the
+    structure of the sequence term (empty / unit / concat / ite); an opaque sub-sequence is
+    mapped by an uninterpreted function (sound: filter-map is a monoid homomorphism)"""
+    from .tys import to_z, from_z, zsort, ListOf, Tup, Str, Int, Bool
+    from .loops import shape_type
+    lst, pred, proj = args
+    if not isinstance(lst, Ref):
+        raise EngineLimit('seq_filter_map of %r' % (lst,))
+    o = st.heap[lst.addr]
+    if isinstance(o, HList):
+        out = []
+        acc_st = st
+        items = []
+        # concrete length: build as a symbolic sequence as well, for uniformity
+        ety_in = None
+        vals = []
+        for x in o.items:
+            p = _single(I, pred, [x], st, node)
+            v = _single(I, proj, [x], st, node)
+            vals.append((I.truth(st, p), v))
+        if all(isinstance(t, bool) or z3.is_true(z3.simplify(t)) or z3.is_false(z3.simplify(t)) for t, _ in vals):
+            keep = [v for t, v in vals if (t if isinstance(t, bool) else z3.is_true(z3.simplify(t)))]
+            yield st, I.alloc(st, HList(keep))
+            return
+        oty = shape_type(I, st, vals[0][1])
+        parts = []
+        for t, v in vals:
+            t = z3.BoolVal(t) if isinstance(t, bool) else t
+            parts.append(z3.If(t, z3.Unit(to_z(v, oty)), z3.Empty(z3.SeqSort(zsort(oty)))))
+        e = parts[0] if len(parts) == 1 else z3.Concat(*parts)
+        yield st, I.alloc(st, HSeq(e, oty))
+        return
+    if not isinstance(o, HSeq):
+        raise EngineLimit('seq_filter_map of %r' % (o,))
+    ety = o.ety
+    # output element type: evaluate proj on a fresh element once
+    probe = from_z(z3.Const('fm!probe', zsort(ety)), ety)
+    oty = shape_type(I, st, _single(I, proj, [probe], st, node))
+    if oty is None:
+        raise EngineLimit('seq_filter_map: projection type')
+    osort = z3.SeqSort(zsort(oty))
+    key = (pred.name, proj.name, repr(ety))
+    if key not in _fm_ufs:
+        _fm_ufs[key] = z3.Function('fm!%s!%s' % (pred.name.rsplit('.', 1)[-1], proj.name.rsplit('.', 1)[-1]),
+                                   z3.SeqSort(zsort(ety)), osort)
+    F = _fm_ufs[key]
+    # defining axioms of the homomorphism (instantiated by the solver where an opaque prefix is split)
+    axk = ('fm-axioms', key)
+    if axk not in st.ghost:
+        st.ghost = dict(st.ghost)
+        st.ghost[axk] = True
+        sa = z3.Const('fm!a', z3.SeqSort(zsort(ety)))
+        sb = z3.Const('fm!b', z3.SeqSort(zsort(ety)))
+        xv = z3.Const('fm!x', zsort(ety))
+        xval = from_z(xv, ety)
+        p = _single(I, pred, [xval], st, node)
+        v = _single(I, proj, [xval], st, node)
+        t = I.truth(st, p)
+        t = z3.BoolVal(t) if isinstance(t, bool) else t
+        otyx = shape_type(I, st, v)
+        st.pc.append(z3.ForAll([sa, sb], F(z3.Concat(sa, sb)) == z3.Concat(F(sa), F(sb)), patterns=[F(z3.Concat(sa, sb))]))
+        st.pc.append(z3.ForAll([xv], F(z3.Unit(xv)) == z3.If(t, z3.Unit(to_z(v, otyx)), z3.Empty(z3.SeqSort(zsort(otyx)))),
+                               patterns=[F(z3.Unit(xv))]))
+        st.pc.append(F(z3.Empty(z3.SeqSort(zsort(ety)))) == z3.Empty(osort))
+    I.trusted.add('seq_filter_map over an unknown prefix is an uninterpreted function; distributed over ++, unit, ite (monoid homomorphism)')
+
+    def go(e):
+        k = e.decl().kind() if z3.is_app(e) else None
+        if k == z3.Z3_OP_SEQ_EMPTY:
+            return z3.Empty(osort)
+        if k == z3.Z3_OP_SEQ_UNIT:
+            x = from_z(e.arg(0), ety)
+            p = _single(I, pred, [x], st, node)
+            v = _single(I, proj, [x], st, node)
+            t = I.truth(st, p)
+            t = z3.BoolVal(t) if isinstance(t, bool) else t
+            return z3.If(t, z3.Unit(to_z(v, oty)), z3.Empty(osort))
+        if k == z3.Z3_OP_SEQ_CONCAT:
+            parts = [go(e.arg(i)) for i in range(e.num_args())]
+            return z3.Concat(*parts)
+        if k == z3.Z3_OP_ITE:
+            return z3.If(e.arg(0), go(e.arg(1)), go(e.arg(2)))
+        return F(e)
+    yield st, I.alloc(st, HSeq(go(o.e), oty))
